@@ -750,6 +750,7 @@ func runC13(seed int64, n int, grams []*hx.CmdGrammar) {
 			return false
 		}
 		note(args, got)
+		lastReply = got
 		want, handled := hx.WireOracle(twin, toBytes(args))
 		if low == "dbsize" {
 			handled = false // counts expired-but-stored keys, which the two background cleaners remove at different times
@@ -1018,7 +1019,7 @@ func c13Blocks(g *hx.WireGen, grams []*hx.CmdGrammar, c *hx.Client, twin *redka.
 var sweepSetup = map[string][][]string{
 	"string": {{"DEL", "ks", "ks2", "kn"}, {"SET", "ks", "10", "EX", "5000"}, {"SET", "ks2", "abc"}},
 	"hash":   {{"DEL", "kh", "kh2", "kn"}, {"HSET", "kh", "f1", "1", "f2", "b", "f3", ""}, {"EXPIRE", "kh", "5000"}, {"HSET", "kh2", "f1", "x"}},
-	"list":   {{"DEL", "kl", "kl2", "kn"}, {"RPUSH", "kl", "a", "", "c", "a"}, {"EXPIRE", "kl", "5000"}, {"RPUSH", "kl2", "z", ""}},
+	"list":   {{"DEL", "kl", "kl2", "kn"}, {"RPUSH", "kl", "a"}, {"RPUSH", "kl", ""}, {"RPUSH", "kl", "c"}, {"RPUSH", "kl", "a"}, {"EXPIRE", "kl", "5000"}, {"RPUSH", "kl2", "z"}, {"RPUSH", "kl2", ""}},
 	"set":    {{"DEL", "ke", "ke2", "kn"}, {"SADD", "ke", "a", "b", "c"}, {"EXPIRE", "ke", "5000"}, {"SADD", "ke2", "b", "c", "d"}},
 	"zset":   {{"DEL", "kz", "kz2", "kn"}, {"ZADD", "kz", "1", "a", "2", "b", "3", "c"}, {"EXPIRE", "kz", "5000"}, {"ZADD", "kz2", "10", "a", "0.5", "b", "7", "d"}},
 }
@@ -1031,6 +1032,7 @@ func c13Sweep(g *hx.WireGen, grams []*hx.CmdGrammar, one func(i int, args []stri
 	saved := g.Keys
 	defer func() { g.Keys = saved }()
 	i := 0
+	checkedSetup := map[string]bool{}
 	run := func(args []string) bool {
 		i++
 		sum.Sweep++
@@ -1076,6 +1078,19 @@ func c13Sweep(g *hx.WireGen, grams []*hx.CmdGrammar, one func(i int, args []stri
 							return
 						}
 					}
+					if !checkedSetup[f] {
+						// the setup must really have produced keys of the family's type
+						checkedSetup[f] = true
+						for _, k := range sweepKeys[f] {
+							if !run([]string{"TYPE", k}) {
+								return
+							}
+							if lastReply.Canon() != "+"+f {
+								fail("harness", fmt.Sprintf("sweep setup: TYPE %s answered %s, expected %s", k, lastReply.Verbose(), f), nil)
+								return
+							}
+						}
+					}
 					switch rep {
 					case 0:
 						g.Keys = sweepKeys[f][:1]
@@ -1094,6 +1109,9 @@ func c13Sweep(g *hx.WireGen, grams []*hx.CmdGrammar, one func(i int, args []stri
 }
 
 var knownHits = map[string]int{}
+
+// lastReply is the reply to the request c13 sent last (for the sweep's setup check)
+var lastReply hx.RV
 
 // knownWireFinding names the recorded finding a mismatching request falls under, if any:
 // ZREVRANGEBYSCORE key max min and ZRANGE key max min BYSCORE REV read their bounds as min max.
